@@ -5,7 +5,28 @@ package main
 // derive) that asserts, on the plugin list main actually hands over, that dispatch order is longest
 // prefix first and that every plugin carries its customised prefix.
 
-import "github.com/awalterschulze/goderive/vxlib/vx"
+import (
+	"github.com/awalterschulze/goderive/derive"
+	"github.com/awalterschulze/goderive/vxlib/vx"
+)
+
+// expected prefixes of a few plugins per configuration (independent of main's own computation)
+func vxExpected(cfg int, global string) map[string]string {
+	m := map[string]string{"hash": global + "Hash", "sort": global + "Sort", "equal": global + "Equal", "compare": global + "Compare"}
+	switch cfg {
+	case 1:
+		m["compare"], m["equal"] = "cmp", "cmpEq"
+	case 2:
+		m["equal"], m["compare"] = "eq", "eqOrd"
+	case 3:
+		m["sort"] = "deriveS"
+	case 4:
+		m["hash"] = "deriveHash"
+	case 6:
+		m["equal"], m["compare"] = "deriveEqual", "deriveCmp"
+	}
+	return m
+}
 
 func vxPluginPrefixConfigs() []string {
 	return []string{
@@ -15,6 +36,7 @@ func vxPluginPrefixConfigs() []string {
 		"sort=deriveS,set=deriveSet2,keys=deriveSet",
 		"hash=deriveHash,mem=deriveHashMem",
 		"min=m,max=mm,mem=mmm",
+		"equal=deriveEqual,compare=deriveCmp",
 	}
 }
 
@@ -26,6 +48,7 @@ func vxRunMain(cfg int, global string) {
 	p := global
 	f := false
 	prefix, pluginprefix, autoname, dedup = &p, &pp, &f, &f
+	derive.VXExpectPrefix = vxExpected(cfg, global)
 	main()
 	vx.Cover("main returned")
 }
@@ -37,3 +60,4 @@ func VX_C12_main_cfg2()    { vxRunMain(2, "derive") }
 func VX_C12_main_cfg3()    { vxRunMain(3, "derive") }
 func VX_C12_main_cfg4()    { vxRunMain(4, "gen") }
 func VX_C12_main_cfg5()    { vxRunMain(5, "derive") }
+func VX_C12_main_cfg6gen() { vxRunMain(6, "gen") }
